@@ -21,3 +21,14 @@ PROPS["C17"] = {
     ],
     "assumptions": [],
 }
+
+PROPS["C02"] = {
+    "level": "proof",
+    "contracts": [
+        ("contracts.wordcode", "xdis.wordcode:unpack_opargs_wordcode"),
+        ("contracts.wordcode", "xdis.cross_dis:unpack_opargs_bytecode_310"),
+        ("contracts.wordcode", "xdis.cross_dis:unpack_opargs_bytecode_310/3.11+"),
+        ("contracts.wordcode", "xdis.cross_dis:unpack_opargs_bytecode"),
+    ],
+    "assumptions": [],
+}
